@@ -59,6 +59,11 @@ def entries():
     add("skewa/6", 6, lambda a: b.skewa(list(a)))
     add("vexa", 6, lambda a: b.vexa(b.skewa(list(a))))
     add("norm", 3, lambda a: b.norm(np.array([a[0], a[1], a[2]], dtype=object)))
+    add("norm/1", 1, lambda a: b.norm(np.array([a[0]], dtype=object)))
+    add("norm/axis", 1, lambda a: b.norm(np.array([0, a[0], 0], dtype=object)))
+    add("norm/repeated", 1, lambda a: b.norm(np.array([a[0], a[0], 0], dtype=object)))
+    add("norm/product", 2, lambda a: b.norm(np.array([a[0] * a[1], 0, 0], dtype=object)))
+    add("normsq/1", 1, lambda a: b.normsq(np.array([a[0]], dtype=object)))
     add("normsq", 3, lambda a: b.normsq(np.array([a[0], a[1], a[2]], dtype=object)))
     add("cross", 6, lambda a: b.cross(np.array(a[:3], dtype=object), np.array(a[3:], dtype=object)))
     add("qpow", 4, lambda a: b.qpow(np.array(a, dtype=object), 3))
